@@ -44,85 +44,175 @@ func scalarLife(c *ctx, r *rand.Rand, vals []*big.Int) {
 	c.nextTrace()
 	obj := secp256k1.NewScalar()
 	other := secp256k1.NewScalarFromUint64(77)
+	var argObj, ret *secp256k1.Scalar // the operand object of the step (it has to come out as it went in) and what the mutator returned (the receiver)
 	observe := func(op, arg string, ctrl int) {
 		cp := secp256k1.NewScalarFrom(obj)
 		other.Set(obj)
-		c.E("sc.Life", "op", op, "arg", arg, "ctrl", ctrl,
+		argAfter, retSelf := "", -1
+		if argObj != nil {
+			argAfter = hx(argObj.Bytes())
+		}
+		if ret != nil {
+			retSelf = b2i(ret == obj)
+		}
+		argObj, ret = nil, nil
+		c.E("sc.Life", "op", op, "arg", arg, "ctrl", ctrl, "arg_after", argAfter, "retself", retSelf,
 			"bytes", hx(obj.Bytes()), "ghalf", int(obj.IsGreaterThanHalfN()), "iszero", int(obj.IsZero()), "eqself", int(obj.Equal(obj)),
 			"copy", hx(cp.Bytes()), "copy_ghalf", int(cp.IsGreaterThanHalfN()), "copy_iszero", int(cp.IsZero()), "eqcopy", int(obj.Equal(cp)),
 			"other", hx(other.Bytes()), "other_ghalf", int(other.IsGreaterThanHalfN()), "bytes_again", hx(obj.Bytes()))
 	}
-	ops := []string{"zero", "one", "add", "sub", "rsub", "neg", "mul", "sq", "set", "setbytes", "setcanon", "cneg", "csel", "inv", "double", "sum", "prod", "setu64"}
+	ops := []string{"zero", "one", "add", "sub", "rsub", "neg", "mul", "sq", "set", "setbytes", "setcanon", "cneg", "csel", "inv", "double", "sum", "prod", "setu64",
+		"inv_from", "neg_from", "sq_from", "cneg_from", "add2", "sub2", "mul2", "inv_from"}
+	doStep := func(step int, fOp string, fA *big.Int, fObj *secp256k1.Scalar) {
+		op := ops[r.Intn(len(ops))]
+		if step%7 == 3 {
+			op = "zero" // the mutators that write limbs directly come up often
+		}
+		a := vals[r.Intn(len(vals))]
+		am := new(big.Int).Mod(a, bigN)
+		cw := lifeCtrls[r.Intn(len(lifeCtrls))]
+		ctrl := b2i(cw != 0)
+		arg := h32(am)
+		if (op == "inv_from" || op == "mul2") && r.Intn(3) == 0 {
+			am = big.NewInt(int64(r.Intn(2))) // the special values, into a receiver that holds something else
+			arg = h32(am)
+		}
+		ao := scFrom(am)
+		if fOp != "" {
+			op = fOp
+			if fA != nil {
+				am, ao, arg = fA, fObj, h32(fA)
+			}
+		}
+		switch op {
+		case "zero":
+			ret = obj.Zero()
+		case "one":
+			ret = obj.One()
+		case "add":
+			argObj, ret = ao, obj.Add(obj, ao)
+		case "sub":
+			argObj, ret = ao, obj.Subtract(obj, ao)
+		case "rsub":
+			argObj, ret = ao, obj.Subtract(ao, obj)
+		case "neg":
+			ret = obj.Negate(obj)
+		case "mul":
+			argObj, ret = ao, obj.Multiply(obj, ao)
+		case "sq":
+			ret = obj.Square(obj)
+		case "set":
+			argObj, ret = ao, obj.Set(ao)
+		case "inv_from": // the receiver holds something else and is NOT the operand
+			argObj, ret = ao, obj.Invert(ao)
+		case "neg_from":
+			argObj, ret = ao, obj.Negate(ao)
+		case "sq_from":
+			argObj, ret = ao, obj.Square(ao)
+		case "cneg_from":
+			argObj, ret = ao, obj.ConditionalNegate(ao, cw)
+		case "add2":
+			argObj, ret = ao, obj.Add(ao, ao)
+		case "sub2":
+			argObj, ret = ao, obj.Subtract(secp256k1.NewScalar(), ao)
+		case "mul2":
+			argObj, ret = ao, obj.Multiply(ao, ao)
+		case "setbytes":
+			raw := new(big.Int).Set(a)
+			if r.Intn(3) == 0 {
+				raw = new(big.Int).Add(bigN, randBig(r, new(big.Int).Sub(big2_256, bigN)))
+			}
+			arg = h32(raw)
+			b := be32(raw)
+			obj.SetBytes(b)
+		case "setcanon":
+			raw := new(big.Int).Set(a)
+			if r.Intn(2) == 0 {
+				raw = new(big.Int).Add(bigN, randBig(r, new(big.Int).Sub(big2_256, bigN)))
+			}
+			arg = h32(raw)
+			b := be32(raw)
+			_, _ = obj.SetCanonicalBytes(b)
+		case "cneg":
+			ret = obj.ConditionalNegate(obj, cw)
+		case "csel":
+			argObj, ret = ao, obj.ConditionalSelect(obj, ao, cw)
+		case "inv":
+			ret = obj.Invert(obj)
+		case "double":
+			ret = obj.Add(obj, obj)
+		case "sum":
+			argObj, ret = ao, obj.Sum(obj, ao, obj)
+		case "prod":
+			argObj, ret = ao, obj.Product(obj, ao, obj)
+		case "setu64": // the long-lived object is now whatever the constructor handed out (0 and 1 come up often): it is OURS to mutate
+			u := r.Uint64() >> uint(r.Intn(40))
+			if r.Intn(2) == 0 {
+				u = uint64(r.Intn(3))
+			}
+			arg = h32(new(big.Int).SetUint64(u))
+			obj = secp256k1.NewScalarFromUint64(u)
+		}
+		observe(op, arg, ctrl)
+	}
+	// systematic part: every kind of receiver (how the object came to be) x every kind of operand x every mutator
+	{
+		rv := func() *big.Int { return vals[r.Intn(len(vals))] }
+		srcs := []func() (*secp256k1.Scalar, *big.Int){
+			func() (*secp256k1.Scalar, *big.Int) { return secp256k1.NewScalar(), big.NewInt(0) },
+			func() (*secp256k1.Scalar, *big.Int) { return new(secp256k1.Scalar), big.NewInt(0) }, // the zero value is a valid zero
+			func() (*secp256k1.Scalar, *big.Int) { return secp256k1.NewScalarFromUint64(1), big.NewInt(1) },
+			func() (*secp256k1.Scalar, *big.Int) { return secp256k1.NewScalarFromUint64(0), big.NewInt(0) },
+			func() (*secp256k1.Scalar, *big.Int) { return secp256k1.NewScalar().One(), big.NewInt(1) },
+			func() (*secp256k1.Scalar, *big.Int) { // decoded, canonical
+				v := new(big.Int).Mod(rv(), bigN)
+				x, err := secp256k1.NewScalarFromCanonicalBytes(be32(v))
+				if err != nil {
+					panic(err)
+				}
+				return x, v
+			},
+			func() (*secp256k1.Scalar, *big.Int) { // decoded with reduction
+				v := new(big.Int).Add(bigN, randBig(r, new(big.Int).Sub(big2_256, bigN)))
+				x, _ := secp256k1.NewScalarFromBytes(be32(v))
+				return x, new(big.Int).Mod(v, bigN)
+			},
+			func() (*secp256k1.Scalar, *big.Int) { // an arithmetic result
+				a, b := new(big.Int).Mod(rv(), bigN), new(big.Int).Mod(rv(), bigN)
+				return secp256k1.NewScalar().Multiply(scFrom(a), scFrom(b)), new(big.Int).Mod(new(big.Int).Mul(a, b), bigN)
+			},
+			func() (*secp256k1.Scalar, *big.Int) { // a - a: zero as a result
+				a := scFrom(new(big.Int).Mod(rv(), bigN))
+				return secp256k1.NewScalar().Subtract(a, a), big.NewInt(0)
+			},
+			func() (*secp256k1.Scalar, *big.Int) { // a copy
+				v := new(big.Int).Mod(rv(), bigN)
+				return secp256k1.NewScalarFrom(scFrom(v)), v
+			},
+		}
+		matrixOps := []string{"add", "sub", "rsub", "mul", "set", "csel", "sum", "prod", "inv_from", "neg_from", "sq_from", "cneg_from", "add2", "sub2", "mul2",
+			"zero", "one", "neg", "sq", "inv", "double", "cneg", "setbytes", "setcanon"}
+		for ri := range srcs {
+			for si := range srcs {
+				for oi, op := range matrixOps {
+					if oi >= 15 && si != ri { // the operand plays no part in these: once per receiver kind
+						continue
+					}
+					var v *big.Int
+					obj, v = srcs[ri]()
+					observe("reset", h32(v), 0)
+					o2, v2 := srcs[si]()
+					doStep(oi, op, v2, o2)
+				}
+			}
+		}
+	}
 	for round := 0; round < c.scale(6, 60); round++ {
 		start := vals[r.Intn(len(vals))]
 		obj = scFrom(new(big.Int).Mod(start, bigN)) // a new object now and then; mostly the same one lives on
 		observe("reset", h32(new(big.Int).Mod(start, bigN)), 0)
 		for step := 0; step < 40; step++ {
-			op := ops[r.Intn(len(ops))]
-			if step%7 == 3 {
-				op = "zero" // the mutators that write limbs directly come up often
-			}
-			a := vals[r.Intn(len(vals))]
-			am := new(big.Int).Mod(a, bigN)
-			cw := lifeCtrls[r.Intn(len(lifeCtrls))]
-			ctrl := b2i(cw != 0)
-			arg := h32(am)
-			switch op {
-			case "zero":
-				obj.Zero()
-			case "one":
-				obj.One()
-			case "add":
-				obj.Add(obj, scFrom(am))
-			case "sub":
-				obj.Subtract(obj, scFrom(am))
-			case "rsub":
-				obj.Subtract(scFrom(am), obj)
-			case "neg":
-				obj.Negate(obj)
-			case "mul":
-				obj.Multiply(obj, scFrom(am))
-			case "sq":
-				obj.Square(obj)
-			case "set":
-				obj.Set(scFrom(am))
-			case "setbytes":
-				raw := new(big.Int).Set(a)
-				if r.Intn(3) == 0 {
-					raw = new(big.Int).Add(bigN, randBig(r, new(big.Int).Sub(big2_256, bigN)))
-				}
-				arg = h32(raw)
-				b := be32(raw)
-				obj.SetBytes(b)
-			case "setcanon":
-				raw := new(big.Int).Set(a)
-				if r.Intn(2) == 0 {
-					raw = new(big.Int).Add(bigN, randBig(r, new(big.Int).Sub(big2_256, bigN)))
-				}
-				arg = h32(raw)
-				b := be32(raw)
-				_, _ = obj.SetCanonicalBytes(b)
-			case "cneg":
-				obj.ConditionalNegate(obj, cw)
-			case "csel":
-				obj.ConditionalSelect(obj, scFrom(am), cw)
-			case "inv":
-				obj.Invert(obj)
-			case "double":
-				obj.Add(obj, obj)
-			case "sum":
-				obj.Sum(obj, scFrom(am), obj)
-			case "prod":
-				obj.Product(obj, scFrom(am), obj)
-			case "setu64": // the long-lived object is now whatever the constructor handed out (0 and 1 come up often): it is OURS to mutate
-				u := r.Uint64() >> uint(r.Intn(40))
-				if r.Intn(2) == 0 {
-					u = uint64(r.Intn(3))
-				}
-				arg = h32(new(big.Int).SetUint64(u))
-				obj = secp256k1.NewScalarFromUint64(u)
-			}
-			observe(op, arg, ctrl)
+			doStep(step, "", nil, nil)
 		}
 	}
 	c.sticky = false
@@ -132,94 +222,190 @@ func fieldLife(c *ctx, r *rand.Rand, vals []*big.Int) {
 	c.nextTrace()
 	obj := field.NewElement()
 	other := field.NewElementFromUint64(77)
+	var argObj, ret *field.Element
 	observe := func(op, arg string, ctrl int, flag int) {
 		cp := field.NewElementFrom(obj)
 		other.Set(obj)
-		c.E("fe.Life", "op", op, "arg", arg, "ctrl", ctrl, "flag", flag,
+		argAfter, retSelf := "", -1
+		if argObj != nil {
+			argAfter = hx(argObj.Bytes())
+		}
+		if ret != nil {
+			retSelf = b2i(ret == obj)
+		}
+		argObj, ret = nil, nil
+		c.E("fe.Life", "op", op, "arg", arg, "ctrl", ctrl, "flag", flag, "arg_after", argAfter, "retself", retSelf,
 			"bytes", hx(obj.Bytes()), "isodd", int(obj.IsOdd()), "iszero", int(obj.IsZero()), "eqself", int(obj.Equal(obj)),
 			"copy", hx(cp.Bytes()), "copy_isodd", int(cp.IsOdd()), "copy_iszero", int(cp.IsZero()), "eqcopy", int(obj.Equal(cp)),
 			"other", hx(other.Bytes()), "other_isodd", int(other.IsOdd()), "bytes_again", hx(obj.Bytes()))
 	}
-	ops := []string{"zero", "one", "add", "sub", "rsub", "neg", "mul", "sq", "set", "setbytes", "setcanon", "cneg", "csel", "inv", "double", "sqrt", "pow2k", "wide", "setu64", "setu64"}
+	ops := []string{"zero", "one", "add", "sub", "rsub", "neg", "mul", "sq", "set", "setbytes", "setcanon", "cneg", "csel", "inv", "double", "sqrt", "pow2k", "wide", "setu64", "setu64",
+		"inv_from", "neg_from", "sq_from", "cneg_from", "add2", "sub2", "mul2", "inv_from", "pow2k_from"}
+	doStep := func(step int, fOp string, fA *big.Int, fObj *field.Element) {
+		op := ops[r.Intn(len(ops))]
+		if step%7 == 3 {
+			op = "zero"
+		}
+		a := vals[r.Intn(len(vals))]
+		am := new(big.Int).Mod(a, bigP)
+		cw := lifeCtrls[r.Intn(len(lifeCtrls))]
+		ctrl := b2i(cw != 0)
+		arg := h32(am)
+		flag := -1
+		if (op == "inv_from" || op == "mul2" || op == "pow2k_from") && r.Intn(3) == 0 {
+			am = big.NewInt(int64(r.Intn(2)))
+			arg = h32(am)
+		}
+		ao := feFrom(am)
+		if fOp != "" {
+			op = fOp
+			if fA != nil {
+				am, ao, arg = fA, fObj, h32(fA)
+			}
+		}
+		switch op {
+		case "zero":
+			ret = obj.Zero()
+		case "one":
+			ret = obj.One()
+		case "add":
+			argObj, ret = ao, obj.Add(obj, ao)
+		case "sub":
+			argObj, ret = ao, obj.Subtract(obj, ao)
+		case "rsub":
+			argObj, ret = ao, obj.Subtract(ao, obj)
+		case "neg":
+			ret = obj.Negate(obj)
+		case "mul":
+			argObj, ret = ao, obj.Multiply(obj, ao)
+		case "sq":
+			ret = obj.Square(obj)
+		case "set":
+			argObj, ret = ao, obj.Set(ao)
+		case "inv_from":
+			argObj, ret = ao, obj.Invert(ao)
+		case "neg_from":
+			argObj, ret = ao, obj.Negate(ao)
+		case "sq_from":
+			argObj, ret = ao, obj.Square(ao)
+		case "cneg_from":
+			argObj, ret = ao, obj.ConditionalNegate(ao, cw)
+		case "add2":
+			argObj, ret = ao, obj.Add(ao, ao)
+		case "sub2":
+			argObj, ret = ao, obj.Subtract(field.NewElement(), ao)
+		case "mul2":
+			argObj, ret = ao, obj.Multiply(ao, ao)
+		case "pow2k_from":
+			k := 1 + r.Intn(5)
+			ctrl = k
+			argObj, ret = ao, obj.Pow2k(ao, uint(k))
+		case "setbytes":
+			raw := new(big.Int).Set(am)
+			if r.Intn(3) == 0 {
+				raw = new(big.Int).Add(bigP, randBig(r, new(big.Int).Sub(big2_256, bigP)))
+			}
+			arg = h32(raw)
+			b := be32(raw)
+			obj.SetBytes(b)
+		case "setcanon":
+			raw := new(big.Int).Set(am)
+			if r.Intn(2) == 0 {
+				raw = new(big.Int).Add(bigP, randBig(r, new(big.Int).Sub(big2_256, bigP)))
+			}
+			arg = h32(raw)
+			b := be32(raw)
+			_, _ = obj.SetCanonicalBytes(b)
+		case "cneg":
+			ret = obj.ConditionalNegate(obj, cw)
+		case "csel":
+			argObj, ret = ao, obj.ConditionalSelect(obj, ao, cw)
+		case "inv":
+			ret = obj.Invert(obj)
+		case "double":
+			ret = obj.Add(obj, obj)
+		case "sqrt": // the receiver is the long-lived object, the argument another element: root or zero
+			var f uint64
+			argObj = ao
+			ret, f = obj.Sqrt(ao)
+			flag = int(f)
+		case "pow2k":
+			k := 1 + r.Intn(5)
+			ctrl = k
+			ret = obj.Pow2k(obj, uint(k))
+		case "setu64": // the object handed out by the constructor (0 and 1 often) is the caller's to mutate from here on
+			u := r.Uint64() >> uint(r.Intn(40))
+			if r.Intn(2) == 0 {
+				u = uint64(r.Intn(3))
+			}
+			arg = h32(new(big.Int).SetUint64(u))
+			obj = field.NewElementFromUint64(u)
+		case "wide":
+			l := 33 + r.Intn(32)
+			w := randBytes(r, l)
+			arg = hx(w)
+			obj.SetWideBytes(w)
+		}
+		observe(op, arg, ctrl, flag)
+	}
+	// systematic part: every kind of receiver (how the object came to be) x every kind of operand x every mutator
+	{
+		rv := func() *big.Int { return vals[r.Intn(len(vals))] }
+		srcs := []func() (*field.Element, *big.Int){
+			func() (*field.Element, *big.Int) { return field.NewElement(), big.NewInt(0) },
+			func() (*field.Element, *big.Int) { return new(field.Element), big.NewInt(0) }, // the zero value is a valid zero
+			func() (*field.Element, *big.Int) { return field.NewElementFromUint64(1), big.NewInt(1) },
+			func() (*field.Element, *big.Int) { return field.NewElementFromUint64(0), big.NewInt(0) },
+			func() (*field.Element, *big.Int) { return field.NewElement().One(), big.NewInt(1) },
+			func() (*field.Element, *big.Int) { // decoded, canonical
+				v := new(big.Int).Mod(rv(), bigP)
+				x, err := field.NewElementFromCanonicalBytes(be32(v))
+				if err != nil {
+					panic(err)
+				}
+				return x, v
+			},
+			func() (*field.Element, *big.Int) { // decoded with reduction
+				v := new(big.Int).Add(bigP, randBig(r, new(big.Int).Sub(big2_256, bigP)))
+				x, _ := fieldFromBytes(be32(v))
+				return x, new(big.Int).Mod(v, bigP)
+			},
+			func() (*field.Element, *big.Int) { // an arithmetic result
+				a, b := new(big.Int).Mod(rv(), bigP), new(big.Int).Mod(rv(), bigP)
+				return field.NewElement().Multiply(feFrom(a), feFrom(b)), new(big.Int).Mod(new(big.Int).Mul(a, b), bigP)
+			},
+			func() (*field.Element, *big.Int) { // a - a: zero as a result
+				a := feFrom(new(big.Int).Mod(rv(), bigP))
+				return field.NewElement().Subtract(a, a), big.NewInt(0)
+			},
+			func() (*field.Element, *big.Int) { // a copy
+				v := new(big.Int).Mod(rv(), bigP)
+				return field.NewElementFrom(feFrom(v)), v
+			},
+		}
+		matrixOps := []string{"add", "sub", "rsub", "mul", "set", "csel", "inv_from", "neg_from", "sq_from", "cneg_from", "add2", "sub2", "mul2",
+			"zero", "one", "neg", "sq", "inv", "double", "cneg", "setbytes", "setcanon", "sqrt", "pow2k", "pow2k_from", "wide"}
+		for ri := range srcs {
+			for si := range srcs {
+				for oi, op := range matrixOps {
+					if oi >= 13 && oi != 24 && si != ri { // the operand plays no part in these: once per receiver kind
+						continue
+					}
+					var v *big.Int
+					obj, v = srcs[ri]()
+					observe("reset", h32(v), 0, -1)
+					o2, v2 := srcs[si]()
+					doStep(oi, op, v2, o2)
+				}
+			}
+		}
+	}
 	for round := 0; round < c.scale(6, 60); round++ {
 		start := new(big.Int).Mod(vals[r.Intn(len(vals))], bigP)
 		obj = feFrom(start)
 		observe("reset", h32(start), 0, -1)
 		for step := 0; step < 40; step++ {
-			op := ops[r.Intn(len(ops))]
-			if step%7 == 3 {
-				op = "zero"
-			}
-			a := vals[r.Intn(len(vals))]
-			am := new(big.Int).Mod(a, bigP)
-			cw := lifeCtrls[r.Intn(len(lifeCtrls))]
-			ctrl := b2i(cw != 0)
-			arg := h32(am)
-			flag := -1
-			switch op {
-			case "zero":
-				obj.Zero()
-			case "one":
-				obj.One()
-			case "add":
-				obj.Add(obj, feFrom(am))
-			case "sub":
-				obj.Subtract(obj, feFrom(am))
-			case "rsub":
-				obj.Subtract(feFrom(am), obj)
-			case "neg":
-				obj.Negate(obj)
-			case "mul":
-				obj.Multiply(obj, feFrom(am))
-			case "sq":
-				obj.Square(obj)
-			case "set":
-				obj.Set(feFrom(am))
-			case "setbytes":
-				raw := new(big.Int).Set(am)
-				if r.Intn(3) == 0 {
-					raw = new(big.Int).Add(bigP, randBig(r, new(big.Int).Sub(big2_256, bigP)))
-				}
-				arg = h32(raw)
-				b := be32(raw)
-				obj.SetBytes(b)
-			case "setcanon":
-				raw := new(big.Int).Set(am)
-				if r.Intn(2) == 0 {
-					raw = new(big.Int).Add(bigP, randBig(r, new(big.Int).Sub(big2_256, bigP)))
-				}
-				arg = h32(raw)
-				b := be32(raw)
-				_, _ = obj.SetCanonicalBytes(b)
-			case "cneg":
-				obj.ConditionalNegate(obj, cw)
-			case "csel":
-				obj.ConditionalSelect(obj, feFrom(am), cw)
-			case "inv":
-				obj.Invert(obj)
-			case "double":
-				obj.Add(obj, obj)
-			case "sqrt": // the receiver is the long-lived object, the argument another element: root or zero
-				_, f := obj.Sqrt(feFrom(am))
-				flag = int(f)
-			case "pow2k":
-				k := 1 + r.Intn(5)
-				ctrl = k
-				obj.Pow2k(obj, uint(k))
-			case "setu64": // the object handed out by the constructor (0 and 1 often) is the caller's to mutate from here on
-				u := r.Uint64() >> uint(r.Intn(40))
-				if r.Intn(2) == 0 {
-					u = uint64(r.Intn(3))
-				}
-				arg = h32(new(big.Int).SetUint64(u))
-				obj = field.NewElementFromUint64(u)
-			case "wide":
-				l := 33 + r.Intn(32)
-				w := randBytes(r, l)
-				arg = hx(w)
-				obj.SetWideBytes(w)
-			}
-			observe(op, arg, ctrl, flag)
+			doStep(step, "", nil, nil)
 		}
 	}
 	c.sticky = false
@@ -275,6 +461,25 @@ func pointLife(c *ctx, r *rand.Rand) {
 		func() *secp256k1.Point { return secp256k1.NewIdentityPoint().Negate(secp256k1.NewGeneratorPoint()) }, // -G
 	}
 	enc := func(p *secp256k1.Point) string { return hx(p.UncompressedBytes()) }
+	// Equal on affine pairs (x, y), (beta*x, y) whose x coordinates differ, in their internal limbs, by a pattern that a careless
+	// accumulation of limb differences cancels (the y comparison is genuinely equal)
+	for _, beta := range []*big.Int{bigBeta, new(big.Int).Mod(new(big.Int).Mul(bigBeta, bigBeta), bigP)} {
+		for _, w := range betaTwinW(r, beta) {
+			yy := new(big.Int).Exp(w, big.NewInt(3), bigP)
+			y := new(big.Int).ModSqrt(yy.Add(yy, big.NewInt(7)).Mod(yy, bigP), bigP)
+			if y == nil {
+				continue
+			}
+			bw := new(big.Int).Mod(new(big.Int).Mul(w, beta), bigP)
+			P, err1 := secp256k1.NewPointFromCoords(be32(w), be32(y))
+			Q, err2 := secp256k1.NewPointFromCoords(be32(bw), be32(y))
+			if err1 != nil || err2 != nil {
+				c.E("lib.Unexpected", "what", "NewPointFromCoords rejects a point of the curve")
+				continue
+			}
+			c.E("pt.EqualEnc", "p", enc(P), "q", enc(Q), "out", int(P.Equal(Q)), "out_rev", int(Q.Equal(P)), "self", int(P.Equal(P)))
+		}
+	}
 	obj := secp256k1.NewGeneratorPoint()
 	other := secp256k1.NewIdentityPoint()
 	srcKind := ""
@@ -291,20 +496,88 @@ func pointLife(c *ctx, r *rand.Rand) {
 		if cp.IsIdentity() == 0 {
 			cyodd = int(cp.IsYOdd())
 		}
-		c.E("pt.Life", "op", op, "src", src, "src_kind", srcKind, "s", s, "t", t, "bytes", raw, "ctrl", ctrl,
+		c.E("pt.Life", "op", op, "src", src, "src_kind", srcKind, "s", s, "t", t, "bytes", raw, "ctrl", ctrl, "rawpt", ptRaw(obj),
 			"unc", enc(obj), "cmp", hx(obj.CompressedBytes()), "xb", xb, "yodd", yodd, "isid", int(obj.IsIdentity()), "eqself", int(obj.Equal(obj)),
 			"copy_unc", enc(cp), "copy_cmp", hx(cp.CompressedBytes()), "copy_yodd", cyodd, "eqcopy", int(obj.Equal(cp)),
 			"other_unc", enc(other), "other_cmp", hx(other.CompressedBytes()), "unc_again", enc(obj))
 	}
 	ops := []string{"replace", "replace", "identity", "generator", "set", "add", "radd", "sub", "dbl", "dbl_from", "neg", "neg_from", "cneg", "cneg_from", "csel", "csel2",
-		"smul", "smul_from", "bmul", "dsm", "dsm_from", "setbytes", "setbytes_bad", "msm1", "msmv"}
-	for round := 0; round < c.scale(6, 60); round++ {
+		"smul", "smul_from", "bmul", "dsm", "dsm_from", "setbytes", "setbytes_bad", "setbytes_bad", "setbytes_id", "msm1", "msmv"}
+	useOps := []string{"add", "radd", "sub", "dbl", "smul", "neg"}
+	afterDecode := false
+	// systematic part: EVERY kind of receiver (what the object held before) x EVERY kind of operand x every operation that writes
+	// the receiver from the operand — whatever a Point carries besides its coordinates must be written by each of them
+	{
+		matrixOps := []string{"set", "neg_from", "cneg_from", "cneg_from", "dbl_from", "csel", "csel2", "add", "radd", "sub", "setbytes", "smul_from", "dsm_from", "msmv"}
+		n := 0
+		for ri := range sources {
+			for si := range sources {
+				for oi, op := range matrixOps {
+					n++
+					if oi >= 11 && (ri+si+oi)%3 != 0 && !c.thorough() {
+						continue
+					}
+					obj = sources[ri]()
+					srcKind = srcKinds[ri]
+					observe("reset", enc(obj), "", "", "", 0)
+					src := sources[si]()
+					srcKind = srcKinds[si]
+					se := enc(src)
+					sv, tv := randBig(r, bigN), randBig(r, bigN)
+					cw := lifeCtrls[(n+oi)%len(lifeCtrls)]
+					if op == "cneg_from" {
+						cw = lifeCtrls[(oi%2)*(1+n%(len(lifeCtrls)-1))] // both branches
+					}
+					raw := ""
+					switch op {
+					case "set":
+						obj.Set(src)
+					case "neg_from":
+						obj.Negate(src)
+					case "cneg_from":
+						obj.ConditionalNegate(src, cw)
+					case "dbl_from":
+						obj.Double(src)
+					case "csel":
+						obj.ConditionalSelect(obj, src, cw)
+					case "csel2":
+						obj.ConditionalSelect(src, obj, cw)
+					case "add":
+						obj.Add(obj, src)
+					case "radd":
+						obj.Add(src, obj)
+					case "sub":
+						obj.Subtract(obj, src)
+					case "setbytes":
+						b := src.CompressedBytes()
+						if n%2 == 0 {
+							b = src.UncompressedBytes()
+						}
+						raw = hx(b)
+						_, _ = obj.SetBytes(b)
+					case "smul_from":
+						obj.ScalarMult(scFrom(sv), src)
+					case "dsm_from":
+						obj.DoubleScalarMultBasepointVartime(scFrom(sv), scFrom(tv), src)
+					case "msmv":
+						obj.MultiScalarMultVartime([]*secp256k1.Scalar{scFrom(sv), scFrom(tv)}, []*secp256k1.Point{obj, src})
+					}
+					observe(op, se, h32(sv), h32(tv), raw, b2i(cw != 0))
+				}
+			}
+		}
+	}
+	for round := 0; round < c.scale(10, 60); round++ {
 		si0 := r.Intn(len(sources))
 		obj = sources[si0]()
 		srcKind = srcKinds[si0]
 		observe("reset", enc(obj), "", "", "", 0)
 		for step := 0; step < 40; step++ {
 			op := ops[r.Intn(len(ops))]
+			if afterDecode { // what a decode left in a recycled receiver is USED, not only encoded again
+				op = useOps[r.Intn(len(useOps))]
+			}
+			afterDecode = op == "setbytes" || op == "setbytes_bad" || op == "setbytes_id"
 			si1 := r.Intn(len(sources))
 			src := sources[si1]()
 			srcKind = srcKinds[si1]
@@ -364,15 +637,70 @@ func pointLife(c *ctx, r *rand.Rand) {
 				}
 				raw = hx(b)
 				_, _ = obj.SetBytes(b)
-			case "setbytes_bad": // a rejected encoding: the object stays as it was
+			case "setbytes_id": // the one-byte encoding of the identity, into a receiver that holds something else
+				raw = "00"
+				_, _ = obj.SetBytes([]byte{0})
+			case "setbytes_bad": // a rejected encoding, of every kind: the object stays as it was
 				b := src.UncompressedBytes()
-				if len(b) == 65 {
-					b[64] ^= 1
-				} else {
-					b = []byte{0, 0}
+				if len(b) != 65 {
+					b = secp256k1.NewGeneratorPoint().UncompressedBytes()
+				}
+				kind := r.Intn(13)
+				if kind > 8 {
+					kind = 2 // the rejection that comes LAST in the decoder (everything parsed, no such point) is the common one
+				}
+				switch kind {
+				case 0:
+					b[64] ^= 1 // y off the curve
+				case 1:
+					b[32] ^= 1 // x changed, y kept
+				case 2: // compressed, x in range but not the abscissa of a point
+					b = src.CompressedBytes()
+					if len(b) != 33 {
+						b = secp256k1.NewGeneratorPoint().CompressedBytes()
+					}
+					for {
+						b[1+r.Intn(32)] ^= byte(1 + r.Intn(255))
+						x := new(big.Int).SetBytes(b[1:])
+						yy := new(big.Int).Exp(x, big.NewInt(3), bigP)
+						if x.Cmp(bigP) < 0 && new(big.Int).ModSqrt(yy.Add(yy, big.NewInt(7)).Mod(yy, bigP), bigP) == nil {
+							break
+						}
+					}
+				case 3: // compressed, x >= p
+					b = append([]byte{2 + byte(r.Intn(2))}, be32(add(bigP, int64(r.Intn(3))))[:]...)
+				case 4: // a valid body under a wrong prefix
+					b[0] = []byte{0, 1, 2, 3, 5, 6, 7, 0xff}[r.Intn(8)]
+				case 5: // compressed body, wrong prefix
+					b = src.CompressedBytes()
+					if len(b) != 33 {
+						b = secp256k1.NewGeneratorPoint().CompressedBytes()
+					}
+					b[0] = []byte{0, 1, 4, 5, 6, 7, 0xff}[r.Intn(7)]
+				case 6: // wrong length
+					b = b[:[]int{0, 2, 32, 34, 64}[r.Intn(5)]]
+				case 7: // uncompressed, y >= p
+					copy(b[33:], be32(add(bigP, int64(r.Intn(3))))[:])
+				case 8:
+					b = []byte{byte(1 + r.Intn(255))} // one byte, not the identity's
 				}
 				raw = hx(b)
-				_, _ = obj.SetBytes(b)
+				switch r.Intn(3) {
+				case 0:
+					_, _ = obj.SetBytes(b)
+				case 1:
+					if len(b) == 33 {
+						_, _ = obj.SetCompressedBytes(b)
+					} else {
+						_, _ = obj.SetBytes(b)
+					}
+				case 2:
+					if len(b) == 65 {
+						_, _ = obj.SetUncompressedBytes(b)
+					} else {
+						_, _ = obj.SetBytes(b)
+					}
+				}
 			case "msm1":
 				obj.MultiScalarMult([]*secp256k1.Scalar{scFrom(sv)}, []*secp256k1.Point{obj})
 			case "msmv":
@@ -382,4 +710,10 @@ func pointLife(c *ctx, r *rand.Rand) {
 		}
 	}
 	c.sticky = false
+}
+
+func fieldFromBytes(b *[32]byte) (*field.Element, uint64) {
+	x := field.NewElement()
+	x.SetBytes(b)
+	return x, 0
 }
